@@ -39,6 +39,11 @@ type c11Batch struct {
 	In  []string    `json:"in"`
 	Src string      `json:"src"` // tok | gram | raw | corpus
 	Sib *c11Sib     `json:"sib,omitempty"`
+	// Fn: the lookup is a FUNCTION that is total (answers every key), as a wrapper of os.Getenv or a computing lookup is:
+	// "" the table alone (props.MapLookup: nil for an unknown key); otherwise the table first and for every other key
+	// "env" the empty string, "len" the decimal length of the key, "up" the key's letters and digits in upper case
+	// (see c11FnValue).  The model takes a table, so these batches are held against the reference only.
+	Fn string `json:"fn,omitempty"`
 }
 
 type c11Concat struct {
@@ -97,13 +102,13 @@ const (
 
 func init() {
 	register(&Prop{ID: "C11", Run: c11Run,
-		Rule: "for each delimiter triple of {${ } :, #{ } |, << >> ::, %( ) ?, ${ } :-, {{ }} |, [[ ]] =>, @ )) ~} (separator shorter than, as long as and longer than the suffix; prefix shorter than, as long as and longer than the suffix): (tok) ALL token strings over {prefix,suffix,separator,a,b} up to a length bound against 7 fixed tables (plain, chain, self cycle, mutual cycle, separator-injecting values, unterminated values, key containing the separator); (gram) templates from the grammar text | prefix key-template [sep default-template] suffix (nesting depth <= 4, repetition, unknown keys, unterminated tails, stray suffix/separator) against random tables whose values are templates incl. self and mutual references; (raw) random strings over the delimiter CHARACTERS, lexed by the model; (concat) pairs of delimiter-balanced templates; (hist) HISTORIES: 2-3 resolvers alive at once, built from separate props.Builder() calls with pairwise different triples and their own tables (half of the histories contain a resolver whose triple shares delimiters with the documented default ${ } : and leaves those options unset on the builder), used interleaved with a preference for resolvers built EARLIER than the latest builder call, on grammar templates of their own syntax (sometimes followed by a placeholder in a sibling's syntax); every use is compared with the reference and the model for that resolver's OWN triple and table and with a resolver built alone. One in four gram/raw/concat cases additionally has a sibling resolver with another triple, built and used before the resolver under test is built, between its build and its use, or interleaved with its uses. A batch case is non-trivial when at least one input has a complete placeholder; a history when a resolver is used on an input with a complete placeholder after a later builder call or while relying on builder defaults next to a sibling; distinct = distinct canonical case JSON.",
+		Rule: "for each delimiter triple of {${ } :, #{ } |, << >> ::, %( ) ?, ${ } :-, {{ }} |, [[ ]] =>, @ )) ~} (separator shorter than, as long as and longer than the suffix; prefix shorter than, as long as and longer than the suffix): (tok) ALL token strings over {prefix,suffix,separator,a,b} up to a length bound against 7 fixed tables (plain, chain, self cycle, mutual cycle, separator-injecting values, unterminated values, key containing the separator); (gram) templates from the grammar text | prefix key-template [sep default-template] suffix (nesting depth <= 4, repetition, unknown keys, unterminated tails, stray suffix/separator) against random tables whose values are templates incl. self and mutual references; one generator in three draws key names that differ by case or blanks only (a / A / ' a' / 'a ' / 'a b') and one in three adds table keys that LOOK LIKE templates (a key text holding a complete placeholder, db.${env}.url), the same texts being used as key parts of placeholders; (fn) the same templates, half of them a placeholder with a nested key part, against lookup FUNCTIONS that are total — the table first, then for every other key the empty string (os.Getenv-style), the decimal length of the key, or its letters and digits in upper case — held against the reference only (the model takes a table); (raw) random strings over the delimiter CHARACTERS, lexed by the model; (concat) pairs of delimiter-balanced templates; (hist) HISTORIES: 2-3 resolvers alive at once, built from separate props.Builder() calls with pairwise different triples and their own tables (half of the histories contain a resolver whose triple shares delimiters with the documented default ${ } : and leaves those options unset on the builder), used interleaved with a preference for resolvers built EARLIER than the latest builder call, on grammar templates of their own syntax (sometimes followed by a placeholder in a sibling's syntax); every use is compared with the reference and the model for that resolver's OWN triple and table and with a resolver built alone. One in four gram/raw/concat cases additionally has a sibling resolver with another triple, built and used before the resolver under test is built, between its build and its use, or interleaved with its uses. A batch case is non-trivial when at least one input has a complete placeholder; a history when a resolver is used on an input with a complete placeholder after a later builder call or while relying on builder defaults next to a sibling; distinct = distinct canonical case JSON.",
 		Assumptions: []string{
 			"delimiter triples are the eight fixed non-overlapping ones (no character shared by two delimiters of a triple); strings are ASCII",
 			"the model works on token lists (greedy left-to-right lexing for the triple; the resolved placeholder text is re-lexed before lookup); byte-level = token-level matching is validated by the raw stream (random strings and table values over the delimiter CHARACTERS, incl. partial delimiters), not proved",
 			"the concatenation clause is evaluated for pairs whose concatenation lexes to the concatenation of the lexings (no delimiter forms across the junction)",
 			"termination is observed as: at most 10000 lookups per Resolve call and a 20 s wall-clock backstop per batch",
-			"lookup tables are Go maps given through props.MapLookup (unique keys)",
+			"lookup tables are Go maps given through props.MapLookup (unique keys; any string is a key, incl. texts with delimiters in them); lookup functions are the table followed by a total fallback whose values are free of delimiter characters, and are evaluated with direct predicates only",
 			"independence of resolvers built from separate props.Builder() calls is probed by histories of at most 3 resolvers and 9 uses; a history case first builds (and uses) one resolver with all four options set explicitly to the documented defaults, so its outcome depends on its own history only and the recorded case replays in a fresh process"}})
 	evals["C11"] = c11Eval
 	shrinkers["C11"] = c11Shrink
@@ -130,8 +135,52 @@ func c11NewResolver(d [3]string, tbl map[string]string) *c11Resolver {
 // c11NewResolverSet builds a resolver from a fresh props.Builder() call, setting only the
 // delimiter options listed in set ('p', 's', 'v'); the others keep the builder's defaults.
 func c11NewResolverSet(d [3]string, set string, tbl map[string]string) *c11Resolver {
+	return c11NewResolverFn(d, set, tbl, "")
+}
+
+// c11FnOK: the lookup functions of the domain.
+func c11FnOK(fn string) bool { return fn == "" || fn == "env" || fn == "len" || fn == "up" }
+
+// c11FnValue is the lookup function of a batch as a mathematical function key -> (value, known): the INPUT of a case
+// (shared by the resolver under test and the reference).  The computed values are free of delimiter characters (every
+// delimiter of the fixed triples is punctuation), so that they add no placeholder syntax of their own.
+func c11FnValue(tbl map[string]string, fn, k string) (string, bool) {
+	if v, ok := tbl[k]; ok {
+		return v, true
+	}
+	switch fn {
+	case "env":
+		return "", true
+	case "len":
+		return fmt.Sprint(len(k)), true
+	case "up":
+		var sb strings.Builder
+		for i := 0; i < len(k); i++ {
+			ch := k[i]
+			switch {
+			case ch >= 'a' && ch <= 'z':
+				sb.WriteByte(ch - 'a' + 'A')
+			case (ch >= 'A' && ch <= 'Z') || (ch >= '0' && ch <= '9'):
+				sb.WriteByte(ch)
+			}
+		}
+		return sb.String(), true
+	}
+	return "", false
+}
+
+func c11NewResolverFn(d [3]string, set string, tbl map[string]string, fn string) *c11Resolver {
 	n := new(int)
 	ml := props.MapLookup(tbl)
+	if fn != "" {
+		ml = func(k string) *string {
+			v, ok := c11FnValue(tbl, fn, k)
+			if !ok {
+				return nil
+			}
+			return &v
+		}
+	}
 	b := props.Builder()
 	if strings.Contains(set, "p") {
 		b = b.Prefix(d[0])
@@ -384,11 +433,30 @@ type c11Gen struct {
 	keys []string
 	unk  []string
 	txt  []string
+	// tkeys: table keys that LOOK LIKE templates (a key text with a complete placeholder in it, as "db.${env}.url"): a
+	// lookup table is a map from strings, any string can be a key.  The same texts are used as key parts of
+	// placeholders, so that the raw text of a nested key is sometimes itself a key of the table.
+	tkeys []string
 }
 
 func c11NewGen(r *rand.Rand, d [3]string) *c11Gen {
-	return &c11Gen{r: r, d: d, keys: []string{"a", "b", "c", "ab", "ba", "k1"}, unk: []string{"u", "zz", "a.b"},
+	g := &c11Gen{r: r, d: d, keys: []string{"a", "b", "c", "ab", "ba", "k1"}, unk: []string{"u", "zz", "a.b"},
 		txt: []string{"x", "y", "-", " ", "0", "a", "b", "k", "1", "_.", "xy z"}}
+	if r.Intn(3) == 0 {
+		// names that differ by case or by surrounding / inner blanks only are different keys
+		g.keys = []string{"a", "A", " a", "a ", "ab", "a b", "k1", "K1"}
+		g.unk = []string{"u", "B", "a  b", "a.b", " "}
+	}
+	if r.Intn(3) == 0 {
+		for i, n := 0, 1+r.Intn(2); i < n; i++ {
+			k := pick(r, []string{"", "", "a", "b", "k", "db."}) + d[0] + pick(r, append([]string{"u"}, g.keys...)) + d[1] + pick(r, []string{"", "", "a", "1", ".url"})
+			if r.Intn(4) == 0 {
+				k = d[0] + k + d[1] // the whole text of a placeholder
+			}
+			g.tkeys = append(g.tkeys, k)
+		}
+	}
+	return g
 }
 
 func (g *c11Gen) text() string {
@@ -422,6 +490,9 @@ func (g *c11Gen) ph(depth int) string {
 
 func (g *c11Gen) key(depth int) string {
 	k := g.r.Intn(20)
+	if len(g.tkeys) > 0 && g.r.Intn(4) == 0 {
+		return pick(g.r, g.tkeys)
+	}
 	switch {
 	case depth > 0 && k < 6:
 		s := ""
@@ -479,6 +550,11 @@ func (g *c11Gen) table() [][2]string {
 			v = ""
 		}
 		m[k] = v
+	}
+	for _, k := range g.tkeys {
+		if g.r.Intn(3) > 0 {
+			m[k] = pick(g.r, []string{"T", "t1", "", g.d[0] + pick(g.r, g.keys) + g.d[1]})
+		}
 	}
 	out := make([][2]string, 0, len(m))
 	for _, k := range sortedKeys(m) {
@@ -657,6 +733,30 @@ func c11Run(c *Ctx) {
 			in = append(in, g.input())
 		}
 		c.Do("batch", c11Batch{D: d, Tbl: tbl, In: in, Src: "gram", Sib: c11GenSib(r, d, c11WhenBatch)})
+	}
+	// (fn) the same templates against lookup FUNCTIONS that are total (the table first, then an answer for every other
+	// key: os.Getenv-style "", a computed value): no placeholder is unresolvable, no default is ever used
+	nFn := c.N(1200)
+	if c.Thorough() {
+		nFn = c.N(300) // 6000: the thorough tier of this property is dominated by the exhaustive stream
+	}
+	for i := 0; i < nFn; i++ {
+		c.Tick()
+		d := c11Triples[i%len(c11Triples)]
+		g := c11NewGen(r, d)
+		tbl := g.table()
+		if r.Intn(4) == 0 {
+			tbl = tbl[:r.Intn(len(tbl)+1)]
+		}
+		var in []string
+		for j := 0; j < 4; j++ {
+			if r.Intn(2) == 0 {
+				in = append(in, g.text()+g.ph(2+g.r.Intn(2))) // a placeholder whose key part is often nested
+			} else {
+				in = append(in, g.input())
+			}
+		}
+		c.Do("batch", c11Batch{D: d, Tbl: tbl, In: in, Src: "fn", Fn: pick(r, []string{"env", "len", "up"})})
 	}
 	// (hist) histories: several resolvers from separate Builder() calls, used interleaved
 	for i := 0; i < c.N(1500); i++ {
@@ -906,6 +1006,10 @@ func c11DivergeFinding(d [3]string, tbl map[string]string) string {
 }
 
 func c11EvalBatch(c *Ctx, b c11Batch) {
+	if !c11FnOK(b.Fn) {
+		c.Dist("batch:lookup-function-outside-domain(skipped)")
+		return
+	}
 	tbl := c11TblMap(b.Tbl)
 	n := len(b.In)
 	res := make([]c11Out, n)
@@ -919,7 +1023,7 @@ func c11EvalBatch(c *Ctx, b c11Batch) {
 	sr := c11NewSibRun(c, b.Sib)
 	if !c11Timed(func() {
 		sr.at("before")
-		cr := c11NewResolver(b.D, tbl)
+		cr := c11NewResolverFn(b.D, "psv", tbl, b.Fn)
 		sr.at("between")
 		for i, s := range b.In {
 			res[i] = cr.resolve(s)
@@ -962,7 +1066,7 @@ func c11EvalBatch(c *Ctx, b c11Batch) {
 			}
 		}
 		// agreement with the independent recursive-descent reference
-		ref := c11RefResolve(b.D, tbl, s, c11RefBudget)
+		ref := c11RefResolveFn(b.D, tbl, b.Fn, s, c11RefBudget)
 		if ref.R != "budget" && r.R != "budget" && r.R != "panic" {
 			if !c11Same(r, ref) {
 				c.Direct("agrees-with-reference", false, det(map[string]any{"reference": ref}))
@@ -992,6 +1096,17 @@ func c11EvalBatch(c *Ctx, b c11Batch) {
 	sr.check(c)
 	if nontrivial {
 		c.Nontrivial()
+	}
+	for _, kv := range b.Tbl {
+		if c11HasPh(c11Lex(b.D, kv[0])) {
+			c.Dist(b.Src + ":table-key-looks-like-a-template")
+			break
+		}
+	}
+	if b.Fn != "" {
+		// a lookup function is not a table: direct predicates (reference) only
+		c.Dist("fn:lookup=" + b.Fn)
+		return
 	}
 	m := c.Model("resolve", map[string]any{"d": b.D, "tbl": c11TblWire(b.Tbl), "in": b.In})
 	c.Corr("resolve", implObs, c11ModelObs(m))
